@@ -208,7 +208,7 @@ def find_result(res, harness):
     return None, None
 
 
-def kani_playback(ws, pkg, features, harness, modspecs=(), timeout=900):
+def kani_playback(ws, pkg, features, harness, modspecs=(), timeout=900, fail_descs=()):
     """Re-run one failed harness with `--concrete-playback=print`, splice the generated unit test into the
     appended harness module of the scratch copy and execute it natively (`cargo kani playback`): the real
     function runs on the counterexample outside the verifier. Returns dict."""
@@ -217,20 +217,33 @@ def kani_playback(ws, pkg, features, harness, modspecs=(), timeout=900):
           ["-Z", "concrete-playback", "--concrete-playback=print", "--output-format", "terse", "--harness", harness]
     rc, out, wall = sh(cmd, cwd=ws, timeout=timeout)
     m = None
-    for blk in re.finditer(r"/// Check for `(\w+)`: ([^\n]*)\n\s*(#\[test\]\s*\n\s*fn (kani_concrete_playback_\w+)\(\) \{.*?\n\s*kani::concrete_playback_run\([^\n]*\n\s*\})", out, re.S):
+    for blk in re.finditer(r"/// Check for `(\w+)`: ([^\n]*)\n(?:[ \t]*///[^\n]*\n|[ \t]*\n)*\s*(#\[test\]\s*\n\s*fn (kani_concrete_playback_\w+)\(\) \{.*?\n\s*kani::concrete_playback_run\([^\n]*\n\s*\})", out, re.S):
         if blk.group(1) != "cover":
             m = blk
             break
+    deterministic = False
     if not m:
-        info["note"] = "kani produced no concrete playback test (e.g. contract harness or stubbed code)"
-        info["kani_output_tail"] = out[-1500:]
-        return info
-    info["check"] = m.group(1) + ": " + m.group(2)
-    test_src, tname = m.group(3), m.group(4)
+        if "Concrete playback unit test" in out or not fail_descs:
+            info["note"] = "kani produced no usable concrete playback test (e.g. contract harness or stubbed code)"
+            info["kani_output_tail"] = out[-1500:]
+            return info
+        # the harness draws NO nondeterministic value (its "input" is a concrete value / a derived type): the harness body
+        # itself is the failing run. Execute it natively with an empty value list; it only counts as reproduced when the
+        # native panic carries the text of the failed check.
+        deterministic = True
+        short_fn = harness.split("::")[-1]
+        tname = "kani_concrete_playback_%s_deterministic" % short_fn
+        test_src = "#[test]\nfn %s() {\n    let concrete_vals: Vec<Vec<u8>> = vec![];\n    kani::concrete_playback_run(concrete_vals, %s);\n}" % (tname, short_fn)
+        info["check"] = "assertion: " + "; ".join(fail_descs)
+        info["note"] = "harness has no nondeterministic input: replayed as is"
+        info["concrete_values"] = []
+    else:
+        info["check"] = m.group(1) + ": " + m.group(2)
+        test_src, tname = m.group(3), m.group(4)
+        vals = re.findall(r"//\s*(.*)\n\s*vec!\[([^\]]*)\]", test_src)
+        info["concrete_values"] = [{"interp": v[0].strip(), "bytes": [int(x) for x in v[1].split(",") if x.strip()]} for v in vals]
     info["generated_test"] = tname
     info["generated_test_src"] = test_src
-    vals = re.findall(r"//\s*(.*)\n\s*vec!\[([^\]]*)\]", test_src)
-    info["concrete_values"] = [{"interp": v[0].strip(), "bytes": [int(x) for x in v[1].split(",") if x.strip()]} for v in vals]
     # splice into the harness module (its file text ends with the module's closing brace)
     short = harness.split("::")[-2] if "::" in harness else None
     placed = False
@@ -258,7 +271,10 @@ def kani_playback(ws, pkg, features, harness, modspecs=(), timeout=900):
           ["-Z", "concrete-playback", "--", tname]
     rc, out, wall = sh(cmd, cwd=ws, timeout=timeout, env={"RUST_BACKTRACE": "0"})
     keep = [l for l in out.splitlines() if not re.match(r"^(warning|\s*\||\s*=|\s*-->|\s*$|\s*\d+ \|)", l)]
-    info["native_replay"] = {"rc": rc, "reproduced": ("test result: FAILED" in out and "panicked at" in out), "output_tail": "\n".join(keep[-25:])}
+    reproduced = "test result: FAILED" in out and "panicked at" in out
+    if deterministic:
+        reproduced = reproduced and any(d.strip('"') in out for d in fail_descs if len(d.strip('"')) > 8)
+    info["native_replay"] = {"rc": rc, "reproduced": reproduced, "output_tail": "\n".join(keep[-25:])}
     return info
 
 
